@@ -989,14 +989,37 @@ def gen_ft(ctx: Ctx, scale: float, rng):
             eval_case(ctx, c)
 
 
+# per-type status of the Lean side (mirrors C05.provedTypes / Model.modelledTypes; the oracle covers every type)
+PROVED = ["A", "AAAA", "NS", "CNAME", "PTR", "DNAME", "NSAP-PTR", "MX", "AFSDB", "RT", "KX", "LP", "PX", "SRV", "RP", "SOA", "TXT", "SPF", "AVC",
+          "NINFO", "RESINFO", "WALLET", "HINFO", "X25", "ISDN", "NAPTR", "DS", "DLV", "CDS", "TLSA", "SMIMEA", "SSHFP", "ZONEMD", "DNSKEY",
+          "CDNSKEY", "DHCID", "OPENPGPKEY", "BRID", "HHIT", "L32", "NSEC3PARAM"]
+
+
+def type_status():
+    out = {}
+    for (_, _, tname, _) in TYPES:
+        if tname in PROVED:
+            out[tname] = "proved (model + correspondence + parseText_printText_partial)" + (
+                "; character-strings through Token.unescape only below 0x80 (D03)" if tname in CHARSTRING_FIELDS else "")
+        elif tname in MODEL:
+            out[tname] = "modelled (model + correspondence; no round-trip lemma for one of its field kinds yet)"
+        elif tname == "OPT":
+            out[tname] = "oracle-only (no presentation format: to_text totality only)"
+        else:
+            out[tname] = "oracle-only"
+    out["TYPEnnn (unknown)"] = "proved (generic_form)"
+    return out
+
+
 def run(ctx: Ctx):
     for p in sorted(glob.glob(os.path.join(VERIF, "corpus", "C05", "*.json"))):
         c = json.load(open(p))
         ctx.case(("corpus", p), sample=None)
         eval_case(ctx, c)
         ctx.count("corpus")
-    scale = 1 if ctx.tier == "quick" else 20
+    scale = 4 if ctx.tier == "quick" else 40
     rng = ctx.rng.fork(5)
+    ctx.extra["type_status"] = type_status()
     generate(ctx, scale, rng)
     gen_prims(ctx, scale, rng.fork(1))
     gen_ft(ctx, scale, rng.fork(2))
@@ -1007,7 +1030,7 @@ def search(ctx: Ctx):
     for m in ctx.mismatches[:50]:
         if m.case is not None and "kind" in m.case:
             eval_case(ctx, m.case)
-    scale = 3 if ctx.tier == "quick" else 40
+    scale = 8 if ctx.tier == "quick" else 60
     rng = ctx.rng.fork(7)
     generate(ctx, scale, rng)
     gen_prims(ctx, scale, rng.fork(1))
